@@ -449,6 +449,9 @@ def c12_extra(tier, seed, lean):
                              op=c['case'][-1][:80] if c['case'] else '-', config=c['config'], case=c['case'], impl=''))
     for k, e in core.get('build_errors', {}).items():
         res['corr'].append(dict(why='harness does not compile for ' + k + ': ' + e[-500:], op='-', config=k, impl='', model='', case=[]))
+    if core['stats'].get('bad_op'):
+        smp = (core.get('bad_op_samples') or [{}])[0]
+        res['corr'].append(dict(why='generator defect: %d generated lines are not understood (e.g. %r)' % (core['stats']['bad_op'], smp.get('line')), op=smp.get('line', '-'), config=smp.get('config', '-'), impl='', model='', case=[]))
     res['evaluations'] = core['lines']; res['cases'] = core['cases']; res['distinct'] = core['distinct']
     res['samples'] = [dict(config=x['config'], case=[l[:120] for l in x['case']], impl=x['impl'][:300], model=x['model'][:300]) for x in core['samples'][:2]]
     res['info'] = dict(c12_configs=core['configs'], c12_stats={k: v for k, v in core['stats'].items() if k.startswith('throws')})
